@@ -101,3 +101,12 @@ package service
   prove [built-the-same-way] (bs r1 r2)
   prove [compare-equal] eq
 @*/
+
+/*@ func types/service.PodsFilter$1
+  props C17
+  note the less function handed to sort.Slice (which calls it with indices in range): sources are ordered by namespace, then name - the order that makes the filter independent of the order of the arguments
+  requires [indices-in-range] (and (<= 0 {i}) (< {i} (slen {svcs})) (<= 0 {j}) (< {j} (slen {svcs})))
+  requires [sources-non-nil] (and (not (= (select (sarr {svcs}) {i}) vnil)) (not (= (select (sarr {svcs}) {j}) vnil)))
+  ensures [orders-by-namespace-then-name] (= result (or (strlt {svcs[i].ObjectMeta.Namespace} {svcs[j].ObjectMeta.Namespace})
+        (and (= {svcs[i].ObjectMeta.Namespace} {svcs[j].ObjectMeta.Namespace}) (strlt {svcs[i].ObjectMeta.Name} {svcs[j].ObjectMeta.Name}))))
+@*/
